@@ -77,6 +77,13 @@ namespace c04 {
         rvs[i] = ap(Op<OP>(), a2[i], sb);
         rsv[i] = ap(Op<OP>(), sa, b2[i]);
       }
+      if (k < 1 && OP == DIV) {
+        Ops o, e;
+        opsAdd(o, "a", a, 4);
+        opsAdd(o, "b", b, 4);
+        opsAdd(e, "reference", rvv, 4);
+        sampleCase(*ts.t[9], o, e);
+      }
       stepMixedBin<T, U, OP, S2, C>(ts.t + 0, k, a, b, a2, sb, sa, b2, rvv, rvs, rsv);
       stepMixedBin<T, U, OP, S3, C>(ts.t + 3, k, a, b, a2, sb, sa, b2, rvv, rvs, rsv);
       stepMixedBin<T, U, OP, S3a, C>(ts.t + 6, k, a, b, a2, sb, sa, b2, rvv, rvs, rsv);
